@@ -240,8 +240,9 @@ def run_compress(files, level=1, seq=False, nworkers=(1, 2, 3, 4, 8, 16), flavor
         nw = nworkers[i % len(nworkers)]
         args = [exe, "-n%d" % nw, "-%d" % level] + (["-u"] if seq else [])
         try:
-            p = subprocess.run(args, input=f, stdout=subprocess.PIPE, stderr=subprocess.PIPE, timeout=timeout)
+            p = subprocess.run(args, input=f, stdout=subprocess.PIPE, stderr=subprocess.PIPE, timeout=vlib.hang_timeout(timeout))
         except subprocess.TimeoutExpired:
+            vlib.note_hang()
             return (None, "HANG", b"")
         return (p.stdout, p.returncode, p.stderr)
     with ThreadPoolExecutor(vlib.NCPU) as ex:
@@ -255,8 +256,9 @@ def run_decompress(files, nworkers=(1, 4, 2, 16), flavor="rel", timeout=120):
         i, f = iv
         nw = nworkers[i % len(nworkers)]
         try:
-            p = subprocess.run([exe, "-n%d" % nw, "-d"], input=f, stdout=subprocess.PIPE, stderr=subprocess.PIPE, timeout=timeout)
+            p = subprocess.run([exe, "-n%d" % nw, "-d"], input=f, stdout=subprocess.PIPE, stderr=subprocess.PIPE, timeout=vlib.hang_timeout(timeout))
         except subprocess.TimeoutExpired:
+            vlib.note_hang()
             return (None, "HANG", b"")
         return (p.stdout, p.returncode, p.stderr)
     with ThreadPoolExecutor(vlib.NCPU) as ex:
